@@ -12,6 +12,32 @@ def streams(ck):
     return out
 
 
+def binding_path_cases(rng, _n):
+    """Documented-looking value patterns that are paths: an identifier, a zero-argument call,
+    a reference to a local.  The documentation lists `my_variable` and `compute_value()` as
+    simple value patterns (compared by equality)."""
+    import tgen
+    cases = []
+    decl = "#[derive(Debug)] pub struct W { pub f: i32, pub s: String }\npub fn five() -> i32 { 5 }\npub const K: i32 = 3;"
+    val = 'W { f: 3, s: "abc".to_string() }'
+    sexp = "(adt %s (names %s %s) (vals (int 3) (str %s)))" % (tgen.hexs("W"), tgen.hexs("f"), tgen.hexs("s"), tgen.hexs("abc"))
+    for k, (pat, setup, meaning) in enumerate([
+        ("W { f: expected, .. }", "let expected = 99i32;", "(v %s (int 99))" % tgen.hexs("expected")),
+        ("W { f: five(), .. }", "", "(v %s (int 5))" % tgen.hexs("five")),
+        ("W { f: K, .. }", "", "(v %s (int 3))" % tgen.hexs("K")),
+        ("W { f: expected, .. }", "let expected = 3i32;", "(v %s (int 3))" % tgen.hexs("expected")),
+    ]):
+        c = t3.Case()
+        c.id = k
+        c.forms = {"binding-path": 1}
+        c.perturbed = True
+        c.meanings = "(meanings %s)" % meaning
+        t3.finish_case(c, decl, "W", val, sexp, pat)
+        c.setup = setup
+        cases.append(c)
+    return cases
+
+
 def check(ck, aspect, theorems, t2_parts=("body", "status", "validity")):
     ck.prove(theorems)
     ck.build_harness("inproc")
@@ -52,6 +78,15 @@ def check(ck, aspect, theorems, t2_parts=("body", "status", "validity")):
                        samples=[dict(invocation="assert_struct!(%s)" % c.text[:160], value=c.value_text[:120], spec=str(c.expect)[:160], impl=c.got[0]) for c in cases[:2]],
                        rule="type-directed seeded generation: random type (depth<=3) -> value -> pattern derived from the value with a random form per node; %s; distinct = distinct (invocation, value); non-trivial = at least two forms in the pattern or a perturbed value" % (
                            {"matching": "value unperturbed (must pass)", "nearmiss": "1..n atoms / variants / lengths of the value perturbed", "mixed": "40% unperturbed"}[stream]))
+    if aspect in ("C01", "C03"):
+        bp = t3.run_corpus(ck, "binding-path", 0, per_bin=4, positions=binding_path_cases)
+        stats, mism = t3.compare(ck, bp, "binding-path")
+        for m in mism:
+            c = m["case"]
+            if m["kind"] == "verdict" and c.got[0] == "pass":
+                ck.report("binding-path", "a value pattern that is a path (an identifier or a zero-argument call) binds instead of comparing: the assertion cannot fail", t3.describe(c))
+        ck.corr_record("T3 path-valued patterns (identifier, zero-argument call, constant as a field's value pattern)", len(bp), len(bp), len(mism), dict(stats),
+                       samples=[dict(invocation="assert_struct!(%s)" % c.text, setup=getattr(c, "setup", ""), impl=c.got[0], spec=str(c.expect)[:120]) for c in bp[:2]], rule="4 fixed programs")
     ck.notes.append("forms exercised: " + ", ".join("%s=%d" % kv for kv in sorted(forms.items())))
     if t2_mm and not found_input:
         ck.report("corr:T2-body", "the model of the code generator no longer matches the real expansion (%d inputs differ); the theorems of %s are about a model the code has moved away from" % (len(t2_mm), aspect),
